@@ -79,6 +79,8 @@ structure Mon where
   keys : List Nat := []
   /-- a request was sent without waiting for the agent to settle and no `drain` has happened since -/
   unsettled : Bool := false
+  /-- `life` entries seen (the agent's start/stop handler) -/
+  life : Nat := 0
   /-- the last line that ended with a settle (every lane event of the changes logged up to it has been emitted) -/
   lastSettled : Nat := 0
   cmdSent : List (Nat × List Int) := []            -- per remote: commands sent to the command lane, in order
@@ -146,6 +148,9 @@ def noteVal (m : Mon) (v : Int) : Mon :=
       (p.1, { p.2 with syncs := p.2.syncs.map fun sq => { sq with allowedVal := sq.allowedVal ++ [v] } }) }
 
 def Mon.history (m : Mon) (h : String) : Mon × Option String :=
+  if h = "life" then ({ m with life := m.life + 1 }, none) else
+  -- nothing the lifecycle logs may precede the agent's `on_start`
+  if m.life = 0 then (m, some "on-start-not-run-first") else
   match h.splitOn ":" with
   | ["val", v] => match parseInt v with
     | some v => (noteVal { m with valHist := m.valHist ++ [(m.t, v)], curVal := v } v, none)
@@ -478,6 +483,7 @@ def Mon.step (m : Mon) (line : String) (out : String) : Mon × Option String :=
         | ["drain"] =>
           (m3, match m3.final with | some e => some e | none => m3.commandsOk)
         | ["stop"] =>
+          if !hs.contains "life" then (m3, some "on-stop-not-run") else
           let stillOpen := m3.pairs.any (fun kp => kp.2.isOpen && !(m3.dropped.contains (kp.1 / 10)))
           (m3, if stillOpen then some "link-left-open-at-stop" else none)
         | _ => (m3, none)
